@@ -29,7 +29,7 @@ CONFIG = {
              "least one coordinate gathered; distinct = distinct (document, path)."),
     "trusted_base": [
         "modelled, not verified: yamlpath/processor.py delete_nodes/delete_gathered_nodes/_delete_nodes "
-        "(lines 690-863, after fix 17f9ea8: _leaf_node_coords, one entry per place, stable sort by descending list "
+        "(lines 690-862, after fixes 17f9ea8 and 1c243db: _leaf_node_coords, root refusal while collecting, one entry per place, stable sort by descending list "
         "position - Python's list.sort is modelled as an insertion sort) on the gathered coordinates; the read side (_get_required_nodes) is NOT modelled: its "
         "NodeCoords are captured from the real run and handed to the model",
         "the merge-key REMOVAL of _delete_nodes (`for (midx, merge_node) in parent.merge`) is outside the model; its "
@@ -281,6 +281,8 @@ def classify(case, obs):
         pk = "exact"
     n = len(rec["order"])
     out = "done" if rec["exc"] is None else "raise"
+    if rec["has_root"] and not rec["root_only"]:
+        out += ":rootmix"
     flags = ("".join(":" + x for x in sorted(rec["shape"])) + (":unlocated" if unlocated(rec) else ""))
     return "%s:n=%s:%s%s" % (pk, n if n < 4 else "4+", out, flags)
 
@@ -301,18 +303,14 @@ def undescribe(d):
     return (d["doc"], d["path"])
 
 
-def _rootmix(case, obs):
-    rec = run_case(case)
-    return rec["kind"] == "run" and rec["has_root"] and not rec["root_only"]
-
-
-FINDING_PREDS = {"root_among_other_matches": _rootmix}
+FINDING_PREDS = {}      # F15 (fix 17f9ea8) and F15b (fix 1c243db) are repaired: every located gather is judged
 
 CORPUS = [
     ("{a: [1, 2, 3]}", "(a[0])+(a[0])"),
     ("{a: [1, 2, 3, 4]}", "(a[2])+(a[0])"),
     ("{a: [[1], [2]], b: 1}", "(/)+(b)"),
     ("{a: [[1], [2]], b: 1}", "(b)+(/)"),
+    ("{a: [[1], [2]], b: 1}", "(a[0])+((b)+(/))+(a[1])"),
     ("[[], 1]", "[0]"),
     ("{a: {b: 1, c: []}}", "a.*"),
     ("[1, 2, 3]", "[-1]"),
